@@ -1,10 +1,9 @@
 #!/usr/bin/env python3
-"""import_seeded.py <prop> <i> <needs-text> <ran-text>: copy /tmp/wt-<prop>/seeded/<i> to /verif/seeded/<prop>-<i>/ with meta.json"""
+"""import_seeded.py <prop> <dest-suffix> <src-dir> <needs-text> <ran-text>: copy <src-dir> to /verif/seeded/<prop>-<suffix>/ with meta.json"""
 import sys, os, shutil, json
-prop,i,needs,ran=sys.argv[1:5]
-src=f'/tmp/wt-{prop}/seeded/{i}'
-dst=f'/verif/seeded/{prop}-{i}'
+prop,suffix,src,needs,ran=sys.argv[1:6]
+dst=f'/verif/seeded/{prop}-{suffix}'
 if os.path.isdir(dst): shutil.rmtree(dst)
 shutil.copytree(src,dst, ignore=shutil.ignore_patterns('target','*.rlib','Cargo.lock'))
 json.dump({"property":prop,"origin":"fresh sub-agent given only the property text and its own scratch worktree","needs_to_manifest":needs,"confirmed_by_me":ran}, open(dst+'/meta.json','w'), indent=1)
-print('imported',dst, os.listdir(dst))
+print('imported',dst, sorted(os.listdir(dst)))
